@@ -6,6 +6,7 @@ import (
 	"fmt"
 	"os"
 	"reflect"
+	"regexp"
 	"strconv"
 	"strings"
 	"sync/atomic"
@@ -309,6 +310,8 @@ func c11Stmts(tier string) []c11Stmt {
 		{[]string{"b", "upper(s) AS u", "a + 1 AS e"}, []string{"b", "u", "e"}},
 		{[]string{"`order`", "`limit` AS l"}, []string{"order", "l"}},
 		{[]string{"'LIMIT 3' AS lit", "a"}, []string{"lit", "a"}},
+		// keywords directly in front of numeric literals inside an item
+		{[]string{"CASE WHEN a > 1 THEN 1 ELSE 0 END AS flag", "a"}, []string{"flag", "a"}},
 	}
 	for _, it := range directItems {
 		for _, w := range wheres {
@@ -487,8 +490,13 @@ func c11ConfigJSON(cfg *types.Config) string {
 	if err != nil {
 		return "marshal error: " + err.Error()
 	}
-	return string(b)
+	// The configuration keeps the text of an expression item as written, so the letter case of the keywords INSIDE
+	// an expression (CASE WHEN THEN ELSE END ...) is part of the text without being part of the structure: such words
+	// are compared in upper case (the same mapping on both sides of every comparison).
+	return c11ExprKeyword.ReplaceAllStringFunc(string(b), strings.ToUpper)
 }
+
+var c11ExprKeyword = regexp.MustCompile(`(?i)\b(case|when|then|else|end|and|or|not|like|is|null|in|between)\b`)
 
 type c11 struct{}
 
